@@ -181,7 +181,7 @@ func TestC03E2E(t *testing.T) {
 				idx++
 				continue
 			}
-			em.Marker("begin", idx)
+			stBegin(em, idx)
 			impl := &echoImpl{unary: func(ctx context.Context, req []byte) ([]byte, bool, error) { return []byte("pong"), has, k.err() }}
 			var obs string
 			stE2E(t, impl, nil, nil, func(cc *goat.ClientConn) {
@@ -196,7 +196,7 @@ func TestC03E2E(t *testing.T) {
 			em.Emit(Rec{Idx: idx, Kind: "e2e-unary", Desc: map[string]any{"err": k.desc(), "reply": has},
 				Tags: append(k.tags(), "part=e2e", "rpc=unary", fmt.Sprintf("reply=%v", has)),
 				Coq:  fmt.Sprintf("CE2EU %s %s %s", k.coq(reg), replyT, obs)})
-			em.Marker("end", idx)
+			stEnd(em, idx)
 			idx++
 		}
 	}
@@ -211,7 +211,7 @@ func TestC03E2E(t *testing.T) {
 			idx++
 			continue
 		}
-		em.Marker("begin", idx)
+		stBegin(em, idx)
 		sent, obs := runStProg(t, reg, p)
 		pos := "after-last"
 		switch {
@@ -224,7 +224,7 @@ func TestC03E2E(t *testing.T) {
 			"position="+pos, fmt.Sprintf("caller-still-sending=%v", p.late > 0), fmt.Sprintf("trailer-held=%v", p.hold))
 		em.Emit(Rec{Idx: idx, Kind: "e2e-stream", Desc: p.desc(), Tags: tags,
 			Coq: fmt.Sprintf("CE2ES %d %s %s %s", p.rk, p.k.coq(reg), zs(sent), obs)})
-		em.Marker("end", idx)
+		stEnd(em, idx)
 		idx++
 	}
 
@@ -239,13 +239,13 @@ func TestC03E2E(t *testing.T) {
 					idx++
 					continue
 				}
-				em.Marker("begin", idx)
+				stBegin(em, idx)
 				sent, obs := runStBlockedRecv(t, reg, rk, nfirst, k)
 				tags := append(k.tags(), "part=e2e", fmt.Sprintf("rpc=%s", map[int]string{1: "client-stream", 2: "server-stream", 3: "bidi"}[rk]),
 					"position=recv-blocked-when-trailer-arrives")
 				em.Emit(Rec{Idx: idx, Kind: "e2e-stream-blocked-recv", Desc: map[string]any{"rk": rk, "first": nfirst, "err": k.desc()}, Tags: tags,
 					Coq: fmt.Sprintf("CE2ES %d %s %s %s", rk, k.coq(reg), zs(sent), obs)})
-				em.Marker("end", idx)
+				stEnd(em, idx)
 				idx++
 			}
 		}
